@@ -12,7 +12,7 @@ META = {'claimed': True,
                "the C text and evaluated with C integer semantics (see C03). 19 theorems, unbounded in key, nonce, data and partition. The software build's block function is OpenSSL's: FIPS-197 is "
                'ASSUMED for it (C02_aesctr_portable_over_fips197_partial) and compared against the spec by the correspondence run of the software-only configuration. In-place operation (aliasing) is '
                'exercised by the driver, not the model. Correspondence: both build configurations vs extracted model vs spec; keys 128/256, chunk scripts crossing the 16-byte routing threshold, '
-               'white-box seek to high block indices (counter carry).',
+               'white-box seek to high block indices (counter carry); AES-NI also with -DBROKEN_MM_LOADU_SI64 and with library allocations 8 mod 16; the void stream/buf operations with every allocation refused; all configurations once more with the library compiled -DNDEBUG.',
  'level_note': 'Trusted: Coq kernel + vm_compute; the instruction semantics of aesenc/aesenclast/aeskeygenassist/shuffle/xor in Accel/AesNi.v (each compared with the real instruction on this CPU by '
                'the C03 instruction sub-check); translator x_aes.py; OpenSSL AES_encrypt assumed FIPS-197 for the software configuration (checked by differential execution only); aliasing in-place '
                'not modelled. Print Assumptions: closed under the global context.',
